@@ -42,6 +42,7 @@ type auA struct {
 	NonIDR    bool    `json:"nonidr"`
 	HasParams bool    `json:"hasparams"`
 	Params    int64   `json:"params"`
+	RpsArg    int     `json:"rpsarg,omitempty"` // H265 only, not seen by the model: slice-header argument that fixes pts - dts
 	Units     []unitA `json:"units"`
 }
 
@@ -256,6 +257,18 @@ func genHistory(r *rng.R, long bool) history {
 			}
 			a.DTS = s.dts
 			a.PTS = s.dts
+			if t.Kind == kH265 {
+				// picture reordering: under an SPS with reorder pictures and VUI timing the muxer's DTS
+				// extractor computes dts = pts - samplesDiff * tick from the slice header; choose the header
+				// argument, then the pts that makes the extractor return exactly a.DTS
+				ro, tick := h265ReorderOf(s.params)
+				if ro > 0 && !a.RA && !a.NonIDR {
+					a.NonIDR = true // the extractor rejects a unit without slices under such an SPS
+				}
+				typ := h265SliceType(nextID, a.RA)
+				a.RpsArg = r.Intn(h265MaxRpsArg(typ, ro) + 1)
+				a.PTS = a.DTS + int64(h265SamplesDiff(typ, ro, a.RpsArg))*tick
+			}
 			d := s.frameDur
 			if s.jitter {
 				d += int64(r.Intn(int(s.frameDur/2)+1)) - s.frameDur/4
